@@ -1319,6 +1319,20 @@ func (fr *Frame) convert(i *ssa.Convert) Value {
 	from, to := i.X.Type(), i.Type()
 	x := fr.eval(i.X)
 	fu, tu := from.Underlying(), to.Underlying()
+	if p, ok := x.(*VPtr); ok {
+		// pointer <-> unsafe.Pointer <-> uintptr, only for addresses obtained from (reflect.Value).UnsafeAddr
+		// or a typed pointer: the address travels unchanged; converting it back to *T is trusted to name the
+		// type of the storage it points at (checked natively by the replay)
+		isUP := func(t types.Type) bool {
+			b, ok := t.(*types.Basic)
+			return ok && (b.Kind() == types.UnsafePointer || b.Kind() == types.Uintptr)
+		}
+		_, toPtr := tu.(*types.Pointer)
+		_, fromPtr := fu.(*types.Pointer)
+		if (isUP(fu) && (isUP(tu) || toPtr)) || (fromPtr && isUP(tu)) {
+			return p
+		}
+	}
 	if fb, ok := fu.(*types.Basic); ok {
 		if tb, ok := tu.(*types.Basic); ok {
 			switch {
